@@ -32,14 +32,39 @@ LEVEL_NOTE = ("Trusted: Coq kernel/vm_compute, the hand model (tied by correspon
 
 
 def _targets(g, rich=False):
+    """structured requests with the string alembic is given: [(struct, string)]"""
     names = [r["name"] for r in g]
-    ts = list(names) + ["base", "-1", "-2"] + [n + "-1" for n in names]
+    labels = [l for r in g for l in r.get("labels", ())]
+    ts = [(("id", n), n) for n in names] + [(("base",), "base"), (("relcur", 1), "-1"), (("relcur", 2), "-2")]
+    ts += [(("relid", n, 1), n + "-1") for n in names]
     if rich:
-        ts += [n[:-1] for n in names if len(n) > 4] + [n + "-2" for n in names]
-        for r in g:
-            for l in r.get("labels", ()):
-                ts += [l + "@base", l + "@-1"] + [l + "@" + n for n in names[:3]]
+        for n in names:
+            for k in range(4, len(n)):
+                p = n[:k]
+                if sum(1 for x in names + labels if x.startswith(p)) == 1:
+                    ts.append((("id", n), p))
+                    break
+        ts += [(("relid", n, 2), n + "-2") for n in names]
+        for l in labels:
+            ts += [(("other",), l + "@base"), (("other",), l + "@-1")] + [(("labelat", l, n), l + "@" + n) for n in names]
     return ts
+
+
+def _coq_tgt(struct, g):
+    ix = gr.index(g)
+    li = gr.label_index(g)
+    k = struct[0]
+    if k == "id":
+        return "(DId %d)" % ix[struct[1]]
+    if k == "base":
+        return "DBase"
+    if k == "relcur":
+        return "(DRelCur %d%%nat)" % struct[1]
+    if k == "relid":
+        return "(DRelId %d %d%%nat)" % (ix[struct[1]], struct[2])
+    if k == "labelat":
+        return "(DLabelAt %d %d)" % (li[struct[1]], ix[struct[2]])
+    return "DOther"
 
 
 def generate(tier, seed):
@@ -49,8 +74,18 @@ def generate(tier, seed):
             orders = [g, g[::-1]] if n > 1 and (n < 4 or tier == "thorough" or rnd.random() < 0.25) else [g]
             for go in orders:
                 for S in gr.antichains(go):
-                    for t in _targets(go):
-                        yield {"g": go, "S": S, "t": t}
+                    for st, t in _targets(go):
+                        yield {"g": go, "S": S, "t": t, "st": list(st)}
+    for n in (2, 3, 4):          # labelled family: label@id requests on small histories with a label on each revision in turn
+        for g in gr.acyclic_graphs(n):
+            if n == 4 and tier == "quick" and rnd.random() > 0.1:
+                continue
+            for li in range(n):
+                g2 = [dict(r, labels=(["lab0"] if i == li else [])) for i, r in enumerate(g)]
+                for S in gr.antichains(g2):
+                    for st, t in _targets(g2, rich=True):
+                        if st[0] == "labelat":
+                            yield {"g": g2, "S": S, "t": t, "st": list(st)}
     nrand = 250 if tier == "quick" else 10000
     for k in range(nrand):
         g = gr.rand_dag(rnd, rnd.randint(5, 10), pdep=rnd.choice([0.2, 0.4]), pmerge=rnd.choice([0.2, 0.5]),
@@ -91,7 +126,7 @@ def _e2e(h):
         ix = gr.index(g2)
         ts = _targets(g2, rich=True)
         rnd.shuffle(ts)
-        for t in ts:
+        for st, t in ts:
             try:
                 bl, tr = m._parse_downgrade_target(current_revisions=tuple(S), target=t, assert_relative_length=True)
                 target = None if (tr is None or tr == "base") else ix[tr.revision]
@@ -110,7 +145,7 @@ def _e2e(h):
                 continue
             ran = [l.split()[1] for l in open(log).read().split("\n") if l.startswith("down ")]
             plan = [ix[x] for x in ran]
-            cin = "(%s, %s, %s, %s)" % (gr.coq_graph(g2, m), cf.opt(target), cf.opt(branch), cf.nlist(ix[s] for s in S))
+            cin = "(%s, %s, %s, %s, %s)" % (gr.coq_graph(g2, m), _coq_tgt(tuple(st), g2), cf.opt(target), cf.opt(branch), cf.nlist(ix[s] for s in S))
             return dict(cin=cin, cout="POk %s" % cf.nlist(plan), out={"plan": plan, "target": target, "branch": branch, "S": S, "t": t, "e2e": True},
                         nontrivial=bool(plan), shape="e2e-n%d" % len(g))
         return None
@@ -125,7 +160,7 @@ def search(tier, seed):
         yield {"g": g, "rand_states": rnd.randint(0, 10 ** 9)}
 
 
-def _one(g, m, sd, S, t):
+def _one(g, m, sd, S, t, st):
     from alembic import util
     from alembic.script.revision import RevisionError, RangeNotAncestorError
     ix = gr.index(g)
@@ -160,9 +195,9 @@ def _one(g, m, sd, S, t):
         out, cout = {"err": "PEAssert"}, "PErr PEAssert"
     except Exception as e:
         out, cout = {"err": "PEOther:" + type(e).__name__}, "PErr PEOther"
-    cin = "(%s, %s, %s, %s)" % (gr.coq_graph(g, m), cf.opt(target), cf.opt(branch), cf.nlist(ix[s] for s in S))
+    cin = "(%s, %s, %s, %s, %s)" % (gr.coq_graph(g, m), _coq_tgt(tuple(st), g), cf.opt(target), cf.opt(branch), cf.nlist(ix[s] for s in S))
     return dict(cin=cin, cout=cout, out=dict(out, target=target, branch=branch, S=S, t=t), nontrivial=bool(out.get("plan")),
-                shape="n%d-%s" % (len(g), "plan" if "plan" in out else out["err"]))
+                shape="n%d-%s-%s" % (len(g), st[0], "plan" if "plan" in out else out["err"]))
 
 
 def run_case(h):
@@ -176,12 +211,13 @@ def run_case(h):
         S = rnd.choice(states[1:] or states)
         ts = _targets(g, rich=True)
         rnd.shuffle(ts)
-        for t in ts:
-            r = _one(g, m, sd, S, t)
+        ts.sort(key=lambda x: x[0][0] in ("id",))
+        for st, t in ts:
+            r = _one(g, m, sd, S, t, st)
             if r is not None:
                 return r
         return None
-    return _one(g, m, sd, h["S"], h["t"])
+    return _one(g, m, sd, h["S"], h["t"], h["st"])
 
 
 def classify(human, out):
